@@ -146,6 +146,8 @@ pub enum Cost {
     PushFree,
     /// Compute costs 3, everything else 1.
     ComputeHeavy,
+    /// Pop costs this much, everything else nothing (a Compute is reached with the whole budget left).
+    PopHeavy(u64),
 }
 
 impl Cost {
@@ -155,6 +157,10 @@ impl Cost {
             Cost::PushFree => match op {
                 Op::Stack(essential_asm::Stack::Push(_)) => 0,
                 _ => 1,
+            },
+            Cost::PopHeavy(c) => match op {
+                Op::Stack(essential_asm::Stack::Pop) => *c,
+                _ => 0,
             },
             Cost::ComputeHeavy => {
                 if refvm::is_compute(op) {
